@@ -8,11 +8,29 @@ NOTE = ("Trusted: z3 (nlsat), numpy object-array machinery, the scipy.special st
         "Discrete bounds (angular momenta, primitives, segments, shells) are listed in the evidence file.")
 
 # property -> (level text, technique, design section) ; only built checks are listed here
+SX = "symbolic execution of the real numpy code on symbolic object arrays + z3 QF_NRA (SX)"
 CHECKS = {
     "C01": ("Every listed obligation (overlap block = closed-form Gaussian moments for all 36 (la,lb) pairs; public "
             "matrix = normalised reference; diagonal = 1; asymmetric = union block) is proved unsat-of-negation by z3 "
             "for ALL centres, exponents and coefficients of each enumerated discrete case; witnesses are replayed on "
-            "the real code.", "symbolic execution of the numpy code + z3 QF_NRA (SX)", "5 C01"),
+            "the real code.", SX, "5 C01"),
+    "C02": ("Kinetic block = -1/2 <a|Laplacian b> closed form (derivative on the right function) for all 36 (la,lb) pairs, "
+            "all continuous inputs symbolic; public matrices incl. normalisation, spherical, mixed.", SX, "5 C02"),
+    "C03": ("Point-charge block = McMurchie-Davidson reference with Boys atoms for la+lb <= 4 (quick) / all pairs <= (5,5) "
+            "(thorough, Level B above total 5), both orientations, symbolic charges; nuclear attraction = sum.", SX, "5 C03"),
+    "C04": ("ERI block = McMurchie-Davidson for every quartet class within the stated bounds (Level A l<=1, Level B l<=2 and "
+            "selected f classes), physicist = chemist transposed, all-s public array incl. normalisation. The floating-point "
+            "accuracy clause is outside the technique.", SX, "5 C04"),
+    "C05": ("General back-end = n-fold symbolic derivative for every order triple <= 3 (quick) / <= 4 (thorough) and l <= 4 / 6; "
+            "direct = same for all 27 low triples; points on centre / plane / axis; unsupported requests must raise; public "
+            "functions incl. normalisation, spherical, mixed, transform.", SX, "5 C05"),
+    "C07": ("Moment block = closed form for every (la,lb) and order triple within bounds, order axis, overlap at order 0, "
+            "binomial origin shift (code vs code).", SX, "5 C07"),
+    "C08": ("Momentum / angular-momentum blocks = closed forms for every ordered pair; public matrices equal the reference for "
+            "every ordered pair and are Hermitian.", SX, "5 C08"),
+    "C09": ("Assembly of all four base classes on labelled dummy blocks for every cart/sph assignment within bounds, rectangular T, "
+            "permuted/signed conventions, against an independent solid-harmonic construction; every public module's "
+            "mixed/transformed result = transformed all-Cartesian result.", SX, "5 C09"),
 }
 PENDING = {}
 
